@@ -1,6 +1,7 @@
 package sess
 
 import (
+	"crypto/rsa"
 	"fmt"
 	"reflect"
 	"sort"
@@ -9,10 +10,12 @@ import (
 	"github.com/xelaj/mtproto"
 	"github.com/xelaj/mtproto/internal/encoding/tl"
 	"github.com/xelaj/mtproto/internal/session"
+	"github.com/xelaj/mtproto/zverif/ref/authsrv"
 	"github.com/xelaj/mtproto/zverif/ref/mtp1"
 	"github.com/xelaj/mtproto/zverif/ref/rpcsrv"
 	"github.com/xelaj/mtproto/zverif/sched"
 	"github.com/xelaj/mtproto/zverif/vr"
+	"github.com/xelaj/mtproto/zverif/vrand"
 )
 
 // VReq / VRes are the harness's test request and result objects.
@@ -68,29 +71,40 @@ type Scenario struct {
 	// StoredSalt differs from Salt when the server has rotated while the client was away.
 	StoredSalt   *int64
 	RotateBefore map[int]int64
-	Handler      bool // register a custom server-request handler that accepts everything
-	Setup        func(w *World)
+	// Fresh: no stored session; the client runs the key exchange against reference server R3 first.
+	Fresh     *authsrv.Config
+	Seed      uint64 // owned random stream of the client (only with Fresh or OwnRandom)
+	OwnRandom bool
+	PublicKey *rsa.PublicKey // overrides the key given to the client (default: the server's)
+	Handler   bool           // register a custom server-request handler that accepts everything
+	Setup     func(w *World)
 	// AfterConnect runs in the main thread right after CreateConnection returned.
-	AfterConnect func(w *World)
+	AfterConnect        func(w *World)
+	SaltAfterExchange   func(w *World)
+	AfterConnectFailure func(w *World)
+	// ConnectPanic: a panic inside CreateConnection in the caller's goroutine is recorded here.
 }
 
 type World struct {
-	S       *sched.S
-	Net     *Net
-	Srv     *rpcsrv.Server
-	Store   *MemStore
-	M       *mtproto.MTProto
-	Sc      *Scenario
-	Results []*CallResult
-	ConnErr error
-	Warn    chan error
-	Handled []string
-	Outcome sched.Outcome
-	Fatal   *sched.Fatal
-	Blocked []sched.BlockedInfo
-	Points  []sched.Point
-	Trace   []string
-	Extra   map[string]any
+	S                         *sched.S
+	Net                       *Net
+	Srv                       *rpcsrv.Server
+	Store                     *MemStore
+	M                         *mtproto.MTProto
+	Sc                        *Scenario
+	Results                   []*CallResult
+	ConnErr                   error
+	ConnPanic, ConnPanicFrame string
+	ConnReturned              bool
+	Warn                      chan error
+	Handled                   []string
+	Outcome                   sched.Outcome
+	Fatal                     *sched.Fatal
+	Blocked                   []sched.BlockedInfo
+	Points                    []sched.Point
+	Trace                     []string
+	Extra                     map[string]any
+	Auth                      *authsrv.Server
 }
 
 // Expected is what the statement promises for a call.
@@ -177,6 +191,30 @@ func Run(sc *Scenario, prefix []int, tracing bool) *World {
 		stored = *sc.StoredSalt
 	}
 	w.Store.Cur = &session.Session{Key: key, Hash: mtp1.KeyID(key), Salt: stored, Hostname: Addr}
+	var pub *rsa.PublicKey
+	if sc.Fresh != nil {
+		w.Store.Cur = nil
+		w.Auth = authsrv.New(*sc.Fresh)
+		w.Srv.Key = nil
+		pub = &sc.Fresh.Key.PublicKey
+		if sc.PublicKey != nil {
+			pub = sc.PublicKey
+		}
+		w.Srv.Plain = func(body []byte, msgID int64) [][]byte {
+			out := w.Auth.Handle(body, msgID)
+			if w.Auth.Done {
+				w.Srv.Key, w.Srv.Salt = w.Auth.AuthKey, w.Auth.Salt
+				if sc.SaltAfterExchange != nil {
+					sc.SaltAfterExchange(w)
+				}
+			}
+			return out
+		}
+	}
+	if sc.Fresh != nil || sc.OwnRandom {
+		vrand.Own(sc.Seed)
+		defer vrand.Release()
+	}
 	if sc.Setup != nil {
 		sc.Setup(w)
 	}
@@ -189,7 +227,11 @@ func Run(sc *Scenario, prefix []int, tracing bool) *World {
 		}
 	}
 	s.Go("main", func() {
-		m, err := mtproto.NewMTProto(mtproto.Config{SessionStorage: w.Store, ServerHost: "unused:1"})
+		host := "unused:1"
+		if sc.Fresh != nil {
+			host = Addr
+		}
+		m, err := mtproto.NewMTProto(mtproto.Config{SessionStorage: w.Store, ServerHost: host, PublicKey: pub})
 		if err != nil {
 			w.ConnErr = err
 			return
@@ -202,8 +244,23 @@ func Run(sc *Scenario, prefix []int, tracing bool) *World {
 			})
 		}
 		w.M = m
-		if err := m.CreateConnection(); err != nil {
-			w.ConnErr = err
+		func() {
+			defer func() {
+				if r := recover(); r != nil {
+					if sched.IsAbort(r) {
+						panic(r)
+					}
+					w.ConnPanic = fmt.Sprint(r)
+					w.ConnPanicFrame = vr.RepoFrame(3)
+				}
+			}()
+			w.ConnErr = m.CreateConnection()
+			w.ConnReturned = true
+		}()
+		if w.ConnErr != nil || w.ConnPanic != "" {
+			if sc.AfterConnectFailure != nil {
+				sc.AfterConnectFailure(w)
+			}
 			return
 		}
 		if sc.AfterConnect != nil {
